@@ -349,6 +349,29 @@ Proof.
 Qed.
 Print Assumptions C06_encoder_exact.
 
+(** WrapperCache(EncoderCache, Causal) as mllama builds it ([ewstep]): a pass with an image / without / a Remove drives the
+    encoder component through exactly the protocol operations of [C06_encoder_exact] and the Causal component through
+    StartForward+Put / Remove (so [C06_step_refines] applies to it); a refused pass whose batch lies behind the image leaves the
+    encoder entry as it was *)
+Theorem C06_encwrap_components : forall e c,
+  (forall batch a id e' c' f, ewstep true (e, c) (EWForward batch (Some (a, id))) = Some ((e', c'), OFwd f) ->
+     erun true e (expand [0%nat] (PStore (map (fun x : entry => snd (fst x)) batch) a id)) = Some e' /\ start_forward true c batch = (c', OFwd f)) /\
+  (forall batch e' c' f, ewstep true (e, c) (EWForward batch None) = Some ((e', c'), OFwd f) ->
+     erun true e (expand [0%nat] (PText (map (fun x : entry => snd (fst x)) batch))) = Some e' /\ start_forward true c batch = (c', OFwd f)) /\
+  (forall q b en e' c' r, ewstep true (e, c) (EWRemove q b en) = Some ((e', c'), r) ->
+     erun true e (expand [0%nat] (PRemove b en)) = Some e' /\ remove c q b en = (c', r)) /\
+  (forall batch img e' c' er, ewstep true (e, c) (EWForward batch img) = Some ((e', c'), OErr er) ->
+     (forall q p t, In (q, p, t) batch -> Model.e_pos e < p) ->
+     e_cached e' = e_cached e /\ Model.e_pos e' = Model.e_pos e /\ e_data e' = e_data e /\ start_forward true c batch = (c', OErr er)).
+Proof.
+  intros e c. split; [|split; [|split]].
+  - intros; eapply encwrap_forward_image; eauto.
+  - intros; eapply encwrap_forward_text; eauto.
+  - intros; eapply encwrap_remove; eauto.
+  - intros; eapply encwrap_refused; eauto.
+Qed.
+Print Assumptions C06_encwrap_components.
+
 Definition C06_encoder_as_found_full : Prop :=
   forall layers ops e', layers <> [] -> Forall pe_ok ops ->
   perun false layers enc_init ops = Some e' -> EI layers e' (ideal_run None ops).
